@@ -471,6 +471,11 @@ impl DefragQueue {
         let frame_index = match frame.header.is_last() {
             // Operation only on the last frame
             true => {
+                // A second last frame must not change the announced packet size.
+                if self.final_packet_size.is_some() {
+                    return Err(DefragmentInsertError::Duplicate(frame.header));
+                }
+
                 // If we receive the last frame, we know the final packet size.
                 let final_packet_size = frame.header.frame_offset as usize + frame.fragment.len();
                 self.final_packet_size = Some(final_packet_size);
@@ -545,7 +550,7 @@ impl DefragQueue {
         };
 
         // One time Operation after we received last and any middle frame
-        if let (Some(final_packet_size), Some(frame_window_size), Some(last_frame_offset), None) = (
+        if let (Some(_), Some(frame_window_size), Some(last_frame_offset), None) = (
             self.final_packet_size,
             self.frame_window_size,
             self.last_frame_offset,
@@ -566,9 +571,10 @@ impl DefragQueue {
 
             // Only after we have received the last frame, and any middle frame, we know how many
             // frames to expect and the final packet size.
-            let expected_frames = final_packet_size.div_ceil(frame_window_size);
+            // All frames in front of the last frame are required, plus the last frame itself.
+            let expected_frames = last_frame_offset as usize / frame_window_size + 1;
             // expected_frames is guaranteed to be <= MAX_FRAMES
-            // because final_packet_size <= MAX_PACKET_SIZE
+            // because last_frame_offset <= MAX_PACKET_SIZE
             // and     frame_window_size >= MIN_PAYLOAD_SIZE
 
             self.expected_frames = Some(expected_frames);
@@ -595,7 +601,7 @@ impl DefragQueue {
 
         // Check if we have received all frames
         if let Some(expected_frames) = self.expected_frames
-            && self.received_frames() == expected_frames
+            && self.has_all_frames(expected_frames)
         {
             self.idle = true;
             let packet_size = self.final_packet_size.unwrap_or(MAX_PACKET_SIZE);
@@ -609,8 +615,23 @@ impl DefragQueue {
         Ok(None)
     }
 
-    fn received_frames(&self) -> usize {
-        self.recv_mask.iter().map(|m| m.count_ones() as usize).sum()
+    /// Whether the last frame and every frame in front of it have been received.
+    ///
+    /// Frames beyond the last frame do not count, they do not cover any part of the packet.
+    fn has_all_frames(&self, expected_frames: usize) -> bool {
+        let middle_frames = expected_frames - 1;
+        let has_last = self.recv_mask[BITMASK_ENTRY_COUNT - 1] >> (BITMASK_ENTRY_BITS - 1) == 1;
+        has_last
+            && self.recv_mask.iter().enumerate().all(|(i, mask)| {
+                let bits = middle_frames
+                    .saturating_sub(i * BITMASK_ENTRY_BITS)
+                    .min(BITMASK_ENTRY_BITS);
+                let required = match bits {
+                    BITMASK_ENTRY_BITS => BitmaskType::MAX,
+                    bits => (1 << bits) - 1,
+                };
+                mask & required == required
+            })
     }
 
     pub fn is_idle(&self) -> bool {
